@@ -72,6 +72,9 @@ func c04Live(p Params) func() {
 			var res string
 			st := cs.Call(hStatus, "x", &res).Status()
 			if triple(st) != triple(want) {
+				if proto == "http" && cause == "" && st.Code() == code && st.Msg() == msg && st.Cause() != nil && st.Cause().Error() == msg {
+					vsched.Failf("http: a status with an explicit empty cause is received with the message as its cause | handler %s caller %s", triple(want), triple(st))
+				}
 				vsched.Failf("handler returned status %s but the caller observed %s (proto %s)", triple(want), triple(st), proto)
 			}
 			if ran != 1 {
